@@ -286,7 +286,7 @@ func loadCorpus() {
 var mdTokens = []string{
 	"*", "_", "**", "`", "``", "[", "]", "(", ")", "<", ">", "!", "#", "-", "+", "|", ":", "~", "~~", "\\", "&", "\"", "'", "=",
 	"\n", "\n\n", " ", "  ", "    ", "\t", "a", "1", ".", "1. ", "- ", "> ", "```", "~~~", "***", "---", "===", "é", "\x80", "\x00", "\r",
-	"[^1]", "[^1]: ", "[a]: /u", "](", "![", "<a>", "</a>", "<!--", "-->", "&amp;", "&#35;", "&#x22;", "{#id}", "{.c k=v}", "www.a.b", "http://a.b", "a@b.c",
+	"{id=5}", "{id=true}", "{a=[1,\"x\"]}", "{a={b=c}}", "{#i .c k=1.5}", " {", "}", "=", "[^1]", "[^1]: ", "[a]: /u", "](", "![", "<a>", "</a>", "<!--", "-->", "&amp;", "&#35;", "&#x22;", "{#id}", "{.c k=v}", "www.a.b", "http://a.b", "a@b.c",
 	"\xef\xbb\xbf", "\xef\xbb\xbf# ", "- [ ] ", "- [x] ", "|-|-|", "| a | b |", ":-:", "\n: ", "日本", "語", "\\ ", "  \n", "\\\n",
 }
 
@@ -371,7 +371,7 @@ func genBlock(rng *RNG, depth int) string {
 	case 0, 1, 2:
 		return genInline(rng) + "\n"
 	case 3:
-		return strings.Repeat("#", 1+rng.Intn(6)) + " " + strings.ReplaceAll(genInline(rng), "\n", " ") + []string{"", " #", " ##  ", " {#hid .c}", " {a=b}"}[rng.Intn(5)] + "\n"
+		return strings.Repeat("#", 1+rng.Intn(6)) + " " + strings.ReplaceAll(genInline(rng), "\n", " ") + []string{"", " #", " ##  ", " {#hid .c}", " {a=b}", " {id=5}", " {id=true x=[1,2]}", " {a={b=c} id=\"q\"}", " {.c id=-1.5e3}"}[rng.Intn(9)] + "\n"
 	case 4:
 		return strings.ReplaceAll(genInline(rng), "\n", " ") + "\n" + []string{"===", "---", "=", "-"}[rng.Intn(4)] + "\n"
 	case 5:
